@@ -133,3 +133,47 @@ def cnet_replay(op, op_param, argws, dw, vals, simname='CompiledSimulation'):
     got = sim.inspect('o')
     exp = netsem_int(op, op_param, list(vals), list(argws), dw)
     return dict(failed=(got != exp), observed=got, expected=exp)
+
+
+def wide_mul_corners(simname='CompiledSimulation', w=128, seed=0):
+    """a*b with both operands spanning several 64-bit limbs, on limb patterns that make every
+    partial-product carry fire (all-ones, 2**64-2, 2**63 +- 1, ...) plus random values"""
+    import itertools
+    import random
+    import pyrtl
+    pyrtl.reset_working_block()
+    a, b = pyrtl.Input(w, 'a'), pyrtl.Input(w, 'b')
+    o = pyrtl.Output(2 * w, 'o')
+    o <<= a * b
+    t = pyrtl.Output(w + 3, 'ot')
+    t <<= (a * b)[:w + 3]
+    rnd = random.Random(seed)
+    nl = (w + 63) // 64
+    M = (1 << 64) - 1
+    pool = [0, 1, M, M - 1, 1 << 63, (1 << 63) + 1, (1 << 63) - 1, 0x8000000000000001, 0xFFFFFFFF00000000,
+            rnd.getrandbits(64)]
+    vals = set()
+    for limbs in itertools.product(pool[:6], repeat=min(nl, 2)):
+        v = 0
+        for i in range(nl):
+            v |= limbs[i % len(limbs)] << (64 * i)
+        vals.add(v & ((1 << w) - 1))
+    for _ in range(40):
+        v = 0
+        for i in range(nl):
+            v |= rnd.choice(pool) << (64 * i)
+        vals.add(v & ((1 << w) - 1))
+    vals = sorted(vals)
+    pairs = [(x, y) for x in vals[:16] for y in vals[:16]] + \
+            [(rnd.choice(vals), rnd.choice(vals)) for _ in range(250)]
+    cls = getattr(pyrtl, simname)
+    sim = cls()
+    n = 0
+    for (x, y) in pairs:
+        sim.step({'a': x, 'b': y})
+        n += 1
+        got, gott = sim.inspect('o'), sim.inspect('ot')
+        if got != x * y or gott != (x * y) % (1 << (w + 3)):
+            return dict(failed=True, observed=dict(a=hex(x), b=hex(y), o=hex(got), ot=hex(gott)),
+                        expected=dict(o=hex(x * y)), evaluations=n)
+    return dict(failed=False, observed='ok', expected='ok', evaluations=n)
